@@ -2,3 +2,20 @@
 
 # This alias function from NeuroDSP
 from neurodsp.utils.checks import check_param_range, check_param_options
+
+import numpy as np
+
+
+def check_sig_dtype(sig):
+    """Return integer or boolean typed signals as float arrays.
+
+    Fixed-width integer arithmetic (voltage differences, flank midpoints, negation) silently
+    wraps around, e.g. a peak-to-trough range above 32767 in an int16 recording.
+    """
+
+    sig = np.asarray(sig)
+
+    if sig.dtype.kind in 'iub':
+        sig = sig.astype(float)
+
+    return sig
